@@ -686,3 +686,31 @@ def _failing_call_line(b, err_block):
                 if o[0] == "call":
                     return o[1].line
     return None
+
+
+def creators_link_on_every_path(ctx, F, cg, RULE):
+    """Every relationship creator links the new relationship into both adjacency directions on every path to Ok:
+    a skip decided on the neighbour (an 'already there?' search keyed by node, not by relationship) drops the
+    second of two parallel relationships from the adjacency while by-id views still have it."""
+    for n in sm.KINDS["edge-add"]:
+        r = sm.fn_of(F, n)
+        if r is None:
+            ctx.anchor_failure(RULE, GS + "::" + n)
+            continue
+        b = Body(F.mir(r["path"]), r)
+        ctx.saw_fn(r["path"]); ctx.saw_calls(len(b.calls()))
+        oks = [i for i, j, pl, rv, line, exp in b.stmts() if pl[0] == 0 and not pl[1] and rv[0] == "agg" and rv[1].endswith("Result::Ok")]
+        for direction in ("outgoing", "incoming"):
+            wr = set()
+            for c in b.calls():
+                if c.args and c.args[0][0] != "k" and mp._is_mut_ref(b.local_ty(c.args[0][1][0])) and c.path.rsplit("::", 1)[-1] in ("push", "insert"):
+                    fs = [f.split(".")[-1] for f in od.chain_fields(b, c.args[0], through=("deref", "deref_mut", "as_mut", "index_mut", "get_mut", "unwrap", "expect")) if f.startswith(GS + ".")]
+                    if fs and fs[0] == direction:
+                        wr.add(c.bb)
+            inst = "%s|%s" % (n, direction)
+            if not wr:
+                ctx.violation(RULE, inst + "|never-linked", where(r), "%s never links the relationship into `%s`" % (n, direction))
+            elif oks and all(b.must_pass(0, o, wr) for o in oks):
+                ctx.ok(RULE, inst, "linked on every path to Ok")
+            else:
+                ctx.violation(RULE, inst + "|linked-conditionally", where(r), "%s can return Ok without linking the relationship into `%s`: the relationship exists by id and type but is missing from the %s neighbours of its endpoint (e.g. the second of two relationships between the same pair)" % (n, direction, direction))
